@@ -942,6 +942,14 @@ def diverging_fields(line):
     return sorted(k for k in fe if fe.get(k) != fg.get(k))
 
 
+def divergence_owner(fields):
+    """a divergence is reported once, by the property that owns the most upstream field that differs"""
+    for pr in ("C06", "C16", "C09"):
+        if any(FIELD_PROP.get(k, "C06") == pr for k in fields):
+            return pr
+    return "C06"
+
+
 FIELD_PROP = {"tags": "C06", "next": "C06", "tc": "C16", "ca": "C16", "j": "C09", "q": "C09", "ix": "C09", "me": "C09"}
 
 
@@ -979,9 +987,9 @@ def analyse(shared, exe):
     def attribute(f):
         """id of the known finding that explains f, or None"""
         d = div.get(f.scn)
-        if d is not None and d <= f.li:
-            return None
         if f.kind in ("stale-decided", "stale-output", "queued-after-detach", "missing-output-at-quiescence", "eligible-merge-not-started"):
+            if d is not None and d <= f.li:
+                return None         # the model does not explain this state
             resp = [kid for kid in sorted(K) if KF_PROP[kid] == f.prop and without[kid].get(f.scn) is not None and without[kid][f.scn] <= f.li]
             return resp[0] if resp else None
         if f.kind == "view-hastag":
@@ -1046,7 +1054,7 @@ def main_for(PROP, tier, seed, replay=None):
                   (PROP, kid, fs[0].kind, len(fs), len({f.scn for f in fs}), fs[0].scn, fs[0].step), flush=True)
     mine = [f for f in res["viol"] if f.prop == PROP]
     # a scenario where the model stops following the implementation, attributed by the projection field that differs
-    mdiv = [(n, l) for n, l in sorted(res["detail"].items()) if PROP in {FIELD_PROP.get(k, "C06") for k in diverging_fields(l)}]
+    mdiv = [(n, l) for n, l in sorted(res["detail"].items()) if PROP == divergence_owner(diverging_fields(l))]
     if mine:
         f = mine[0]
         small = minimise(scns[f.scn], f, PROP, exe)
